@@ -525,13 +525,39 @@ class Interp:
                     return v.nlo
                 return I(v.nlo, v.nhi, nm)
             return TOP
-        if fn in ('re.sub', 're.subn') and len(n.args) == 3:
-            pat, rep, s = (self._eval(a, env) for a in n.args)
+        if fn in ('re.sub', 're.subn') and len(n.args) >= 3:
+            pat, rep, s = (self._eval(a, env) for a in n.args[:3])
             s = self._absstr(s)
-            if isinstance(pat, str) and isinstance(rep, str) and isinstance(s, S) and len(rep) == 1:
+            # count / flags (positional 4th/5th or keyword): only IGNORECASE is modelled, anything else is unknown
+            extra = list(n.args[3:]) + [k.value for k in n.keywords]
+            names = [k.arg for k in n.keywords]
+            ignorecase = False
+            unknown_extra = False
+            for i_, e_ in enumerate(extra):
+                isflags = (i_ >= len(n.args[3:]) and names[i_ - len(n.args[3:])] == 'flags') or (i_ == 1 and i_ < len(n.args[3:]))
+                txt = norm(e_)
+                if isflags and set(t.strip() for t in txt.split('|')) <= {'re.IGNORECASE', 're.I'}:
+                    ignorecase = True
+                else:
+                    unknown_extra = True
+            if isinstance(pat, str) and isinstance(rep, str) and isinstance(s, S) and len(rep) == 1 and not unknown_extra:
                 rc = regex_single_class(pat)
                 if rc is not None:
                     negated, ranges = rc
+                    if ignorecase:
+                        # a letter range matches both cases - and, for str patterns, the handful of non-ASCII characters that
+                        # case-fold to ASCII letters (U+0130, U+0131, U+017F, U+212A): part of class 'x' is inside the set
+                        ranges = list(ranges)
+                        for a_, b_ in list(ranges):
+                            for c_ in range(a_, min(b_, 127) + 1):
+                                ch = chr(c_)
+                                if ch.isalpha():
+                                    o_ = ord(ch.swapcase())
+                                    ranges.append((o_, o_))
+                        if any(chr(c_).isalpha() for a_, b_ in ranges for c_ in range(a_, min(b_, 127) + 1)):
+                            ranges.append((0x130, 0x131))
+                            ranges.append((0x17f, 0x17f))
+                            ranges.append((0x212a, 0x212a))
                     keep = set()
                     changed = False
                     for c in s.chars:
